@@ -526,14 +526,31 @@ def concrete_run(iface, method, size, chunk, range_hdr, if_range_kind, ctype):
             asyncio.run(resp(scope, receive, send))
             status = sent[0]["status"]
             headers = [(k.decode().lower(), v.decode()) for k, v in sent[0].get("headers", [])]
-            body = b"".join(m.get("body", b"") for m in sent[1:])
+            # what a server delivers: body events up to and including the first one with more_body false; later events are a protocol error
+            body, completed, extra = b"", False, 0
+            for m in sent[1:]:
+                if completed:
+                    extra += 1
+                    continue
+                body += m.get("body", b"")
+                completed = not m.get("more_body", False)
+            if not completed:
+                raise _Protocol("the response was never completed (no body event with more_body false)")
+            if extra:
+                raise _Protocol(f"{extra} event(s) sent after the final body event; {len(body)} body bytes were delivered before it")
     return status, headers, body, data
+
+
+class _Protocol(Exception):
+    pass
 
 
 def concrete_problem(iface, method, size, chunk, range_hdr, if_range_kind, ctype) -> Optional[str]:
     """Independent concrete oracle for one request (used for replay and counterexample confirmation)."""
     try:
         status, headers, body, data = concrete_run(iface, method, size, chunk, range_hdr, if_range_kind, ctype)
+    except _Protocol as ex:
+        return f"ASGI event sequence: {ex}"
     except Exception as ex:  # noqa: BLE001
         return f"exception {type(ex).__name__}: {ex}"
     h = dict(headers)
